@@ -68,6 +68,24 @@ CHECKS = {
          "comment style; after stripping comments with an independent lexer the executable words and line count must equal those of the same call with an innocuous text.",
          "Trusted: lexer's notion of block end (CR LF/LF/CR) and of where a delimited comment ends (first closing delimiter); token alphabet.",
          "DESIGN.md §5 C09"),
+ "C10": ("E3", "exploration",
+         "exhaustive enumeration of a parameter grid of tracer requests (plus chained pairs) on the real builder; vertices rebuilt by an independent interpreter and checked against closed-form curve equations",
+         "Every cell of a grid over start position, direction, distance mode, resolution and shape parameters is traced by the real PathTracer; the emitted polyline is rebuilt from the G1 lines and checked "
+         "against the documented curve (constant/linearly varying radius, monotone bearing, expected sweep, z linear, control points in order, end on target). A finite grid over a continuum: exploration, not proof.",
+         "Trusted: interpreter + closed-form oracles + tolerance model (accumulated output rounding); grid values; ill-conditioned requests (almost-closed arcs, resolution coarser than radius) are excluded.",
+         "DESIGN.md §5 C10"),
+ "C11": ("E1", "model_checking",
+         "bounded-exhaustive enumeration of logical toolpath histories executed in lock-step on two real builders (absolute vs relative twin); differential vertex comparison",
+         "All sequences of logical toolpath ops (moves, rapids, bypass moves, mode contexts, every tracer shape) up to the depth bound from three start positions run on an absolute-mode and a relative-mode builder; "
+         "machine vertices rebuilt from both outputs must agree pairwise with the same counts and exception behaviour.",
+         "Trusted: interpreter; exact logical positions carried between steps; tolerance = accumulated rounding of both twins; fixed shape parameters per op.",
+         "DESIGN.md §5 C11"),
+ "C12": ("E3", "exploration",
+         "exhaustive enumeration of a radius x sweep x resolution grid (four decades of length/resolution) on the real tracer; segment-length statistics from the rebuilt polyline",
+         "Each grid cell of constant-speed shapes is traced and the segment lengths measured on the rebuilt polyline: longest <= ~1 resolution, interior >= ~0.9, count proportional to closed-form length / resolution, "
+         "sagitta bound; for every shape the counts at r, r/2, r/4 must not decrease; both unit systems.",
+         "Trusted: closed-form path lengths; the numeric reading of 'about' (1.02 / 0.88); grid values.",
+         "DESIGN.md §5 C12"),
  "C13": ("E1", "model_checking",
          "explicit-state BFS over transformer histories with an independent pure-python 4x4 matrix model stepped in lock-step",
          "All histories of transform/state/context operations up to the depth bound are executed on the real CoordinateTransformer (inside GCodeCore for the context managers); the current, "
